@@ -79,11 +79,13 @@ pub struct Oracles {
     pub c06: bool,
     /// Running <=> every remote has completed `total` matched round trips
     pub c12_running: bool,
+    /// advance_frame returns NotSynchronized exactly while the session is not Running
+    pub c12_notsync: bool,
     pub c18: bool,
 }
 impl Oracles {
     pub fn all_basic() -> Oracles {
-        Oracles { c01: true, c02: true, c02_saved: true, c03: true, c04: true, c06: true, c12_running: false, c18: false }
+        Oracles { c01: true, c02: true, c02_saved: true, c03: true, c04: true, c06: true, c12_running: false, c12_notsync: false, c18: false }
     }
 }
 
@@ -168,6 +170,7 @@ pub struct Obs {
     pub spec_waits: u64,
     pub spec_too_far_behind: u64,
     pub running_checks: u64,
+    pub notsync_checks: u64,
     pub size_samples: u64,
     pub actions_done: u64,
 }
@@ -376,7 +379,7 @@ pub fn build<P: Pred>(s: &Scn, oracles: Oracles) -> World<P> {
         let mut game = Game::new();
         game.keep = s.keep_frames;
         let idx = nodes.len();
-        let cfg = NodeCfg { pauses: sp.pauses.clone(), ..Default::default() };
+        let cfg = NodeCfg { pauses: sp.pauses.clone(), drain: sp.drain, ..Default::default() };
         nodes.push(new_node(idx, spec_addr(si), true, Some(sp.host), vec![], game, cfg, Some(sp.clone()), rng, first, (frame_ns as f64 * sp.period_factor) as u64));
         sessions.push(Sess::Spec(sess));
     }
@@ -596,6 +599,18 @@ impl<P: Pred> World<P> {
                 let now = vh::clock_now_nanos();
                 let n = &mut core.nodes[ni];
                 n.next_tick = n.next_tick.max(now + 1);
+            }
+            if core.oracles.c12_notsync {
+                if let Ok(r) = &res {
+                    let running_after = sess.current_state() == SessionState::Running;
+                    let notsync = matches!(r, Err(GgrsError::NotSynchronized));
+                    core.obs.notsync_checks += 1;
+                    if running_after == notsync {
+                        let d = format!("advance_frame returned {} while current_state() is {}", if notsync { "NotSynchronized".to_string() } else { format!("{:?}", r.as_ref().map(|l| l.len()).map_err(err_name)) }, if running_after { "Running" } else { "Synchronizing" });
+                        core.viol("C12", addr, t, "NotSynchronized does not coincide with the session state", d);
+                        return;
+                    }
+                }
             }
             match res {
                 Err(p) => {
